@@ -177,7 +177,11 @@ func (p *printer) node(n *Node, d int, nest int) {
 	case "cond":
 		v := fmt.Sprintf("c%d", n.ID)
 		p.line(d, "%s := 0", v)
-		p.line(d, "for %s < %d {", v, n.N)
+		if (n.ID+n.N)%2 == 0 {
+			p.line(d, "for lt(%s, %d) {", v, n.N) // the condition is a bare call
+		} else {
+			p.line(d, "for %s < %d {", v, n.N)
+		}
 		p.line(d+1, "%s++", v)
 		p.counters = append(p.counters, v)
 		p.block(n.Body, d+1, nest+1)
@@ -218,9 +222,12 @@ func (p *printer) node(n *Node, d int, nest int) {
 		p.line(d, "}")
 	case "switch":
 		tag := p.v(0)
-		switch n.Tag % 4 {
+		switch n.Tag % 5 {
 		case 0, 3:
 			p.line(d, "switch %s {", tag)
+		case 4: // the tag is a package-level variable that the case expressions change while they are evaluated
+			p.line(d, "gt = %s", tag)
+			p.line(d, "switch gt {")
 		default:
 			p.line(d, "switch {")
 		}
@@ -234,7 +241,9 @@ func (p *printer) node(n *Node, d int, nest int) {
 			}
 			var vs []string
 			for vi, x := range c.Vals {
-				switch n.Tag % 4 {
+				switch n.Tag % 5 {
+				case 4:
+					vs = append(vs, fmt.Sprintf("setTag(gt+1, %d)", x))
 				case 3: // alternatives that are local variables (kv0..kv5 hold 0..5), mixed with constants
 					if (vi+ci)%3 == 2 {
 						vs = append(vs, fmt.Sprint(x))
@@ -296,6 +305,8 @@ func (s *Skel) Source() (string, map[int]int) {
 	sb.WriteString("func inc(i int, id int) int {\n\tfmt.Println(\"post\", id)\n\treturn i + 1\n}\n\n")
 	sb.WriteString("func one(id int) int {\n\tfmt.Println(\"post\", id)\n\treturn 1\n}\n\n")
 	sb.WriteString("func is(a int, b int) bool {\n\treturn a == b\n}\n\n")
+	sb.WriteString("func lt(a int, b int) bool {\n\treturn a < b\n}\n\n")
+	sb.WriteString("var gt int\n\nfunc setTag(v int, ret int) int {\n\tgt = v\n\treturn ret\n}\n\n")
 	sb.WriteString("var ws = make([]int, 64)\n\nfunc step(k int) {\n\tfmt.Println(\"post\", k)\n\tws[k]++\n}\n\nfunc reset(k int) int {\n\tws[k] = 0\n\treturn k\n}\n\n")
 	sb.WriteString("func f(p int) {\n\tacc := p\n\tzs := []int{1, 2, 3, 4}\n\trs := []int{10, 20, 30}\n\t_ = rs\n\tkv0, kv1, kv2, kv3, kv4, kv5 := 0, 1, 2, 3, 4, 5\n\t_, _, _, _, _, _ = kv0, kv1, kv2, kv3, kv4, kv5\n")
 	sb.WriteString(p.sb.String())
@@ -388,7 +399,7 @@ func (g *genState) stmt(depth int, inLoop, inSwitch bool) *Node {
 		n.Body = g.stmts(depth+1, true, false, 4)
 		return n
 	case 6:
-		n := &Node{K: "switch", ID: g.nextID(), Tag: rx.Uniform(rt, 4, "tag")}
+		n := &Node{K: "switch", ID: g.nextID(), Tag: rx.Uniform(rt, 5, "tag")}
 		nc := rx.Range(rt, "ncases", 0, 3)
 		used := map[int]bool{}
 		for i := 0; i < nc; i++ {
@@ -540,8 +551,8 @@ func decorate(ns []*Node, salt int) {
 		if n.K == "range" && (salt+n.ID)%2 == 1 {
 			n.Over = 3
 		}
-		if n.K == "switch" && n.Tag == 0 && (salt+n.ID)%2 == 0 {
-			n.Tag = 3
+		if n.K == "switch" && n.Tag == 0 && (salt+n.ID)%3 != 2 {
+			n.Tag = 3 + (salt+n.ID)%3
 		}
 		if n.K == "for" && n.Post == 1 && !n.Same && (salt+n.ID)%3 == 0 {
 			n.Post = 5 + (salt+n.ID)%4 // constant step, or one of the three clauses empty
